@@ -266,6 +266,11 @@ fn h1_box(prop: &str, thorough: bool) -> Vec<(Body, usize)> {
                             let b = if costly && e != 1 { 1 } else { bound };
                             push(H1 { err_at: Some(e), ..base.clone() }, b);
                             push(H1 { err_at: Some(e), consumer: Consumer::StopAtError, ..base.clone() }, b);
+                            // a consumer that has already left when the reader fails: the call still
+                            // has to return (the error is then simply not received)
+                            let low = if t >= 2 { 0 } else { bound.min(1) };
+                            push(H1 { err_at: Some(e), consumer: Consumer::StopAfter(0), ..base.clone() }, low);
+                            push(H1 { err_at: Some(e), consumer: Consumer::StopAfter(1), ..base.clone() }, low);
                         }
                         if s <= 2 {
                             let b = if costly { 1 } else { bound };
@@ -293,7 +298,11 @@ fn h2_box(prop: &str, thorough: bool) -> Vec<(Body, usize)> {
     let fa3b: (Fmt, &[u8], usize, usize) = (Fmt::Fasta, b">a\nACGTAC\n>b\nG\n>c\nT\n>d\nA\n", 12, 3);
     let fq2: (Fmt, &[u8], usize, usize) = (Fmt::Fastq, b"@a\nAC\n+\nII\n@b\nG\n+\nI\n@c\nTTT\n+\nIII\n", 22, 2);
     let fq3: (Fmt, &[u8], usize, usize) = (Fmt::Fastq, b"@a\nAC\n+\nII\n@b\nG\n+\nI\n@c\nTTT\n+\nIII\n@d\nA\n+\nI\n", 22, 3);
-    let inputs = [fa2, fa3, fa3b, fq2, fq3];
+    // set sizes that GROW on a recycled data set (queue 1: sets 1 and 3 share a data set, 1 -> 2 records),
+    // so that the per-record output vector is recycled shorter than the new set
+    let fa_grow: (Fmt, &[u8], usize, usize) = (Fmt::Fasta, b">a\nACGTAC\n>b\nACGTAC\n>c\nT\n>d\nA\n", 12, 3);
+    let fq_grow: (Fmt, &[u8], usize, usize) = (Fmt::Fastq, b"@a\nACGTAC\n+\nIIIIII\n@b\nACGTAC\n+\nIIIIII\n@c\nT\n+\nI\n@d\nA\n+\nI\n", 22, 3);
+    let inputs = [fa2, fa3, fa3b, fq2, fq3, fa_grow, fq_grow];
     for &(format, input, cap, nsets) in &inputs {
         for &t in &[1u32, 2] {
             for &q in if thorough { &[1usize, 2, 3][..] } else { &[1usize, 2][..] } {
